@@ -2340,7 +2340,7 @@ func UnaryPlusVal(operand Value) Value {
 	switch operand.ValueFlag() {
 	case SMALL_INT_FLAG, FLOAT_FLAG,
 		FLOAT64_FLAG, FLOAT32_FLAG, INT64_FLAG, INT32_FLAG, INT16_FLAG, INT8_FLAG,
-		UINT64_FLAG, UINT32_FLAG, UINT16_FLAG, UINT8_FLAG:
+		UINT64_FLAG, UINT32_FLAG, UINT16_FLAG, UINT8_FLAG, UINT_FLAG:
 		return operand
 	default:
 		return Undefined
